@@ -1299,6 +1299,10 @@ struct Explorer {
   vector<string> EffectiveInputs(const Variant& v, const Stmt& s, const vfs::Disk& d, const vfs::Disk* later,
                                  set<string>* discovered) {
     vector<string> in = s.AllDeclaredInputs();
+    // legacy: a single-output phony statement without implicit inputs that names itself as an
+    // input is tolerated (the self reference is dropped with a warning)
+    if (s.phony && s.outs.size() == 1 && s.im.empty())
+      in.erase(remove(in.begin(), in.end(), s.outs[0]), in.end());
     if (!s.dyndep.empty() && !s.phony && (d.Get(s.dyndep) || (later && later->Get(s.dyndep))))
       for (auto& x : s.spec.reads) if (find(in.begin(), in.end(), x) == in.end()) in.push_back(x);
     if (s.phony) return in;
@@ -1460,7 +1464,10 @@ struct Explorer {
       for (int si : cyc_stmts) {
         const Stmt& cs = v->stmts[si];
         if (cs.phony) continue;
-        if (started_before_dyndep_load(cs.id)) early = true;
+        // finished (not merely started) before the file was loaded: no longer in the plan
+        if (dyndep_load_event >= 0)
+          for (int e = 0; e < dyndep_load_event; ++e)
+            if (r.events[e].kind == Event::kFinish && r.cmds[r.events[e].cmd].spec.id() == cs.id) early = true;
         if (dyndep_load_event >= 0 && !Started(r, cs.id)) early = true;   // was up to date: not in the plan
       }
       x.facts.set("dyndep_file_produced_in_this_build", dyndep_load_event >= 0);
